@@ -22,11 +22,16 @@ VALID = re.compile(r"^[a-zA-Z_]\w*\Z", re.ASCII)  # ONLY WHAT THE LEXER READS AS
 
 
 def is_keyword(identifier):
-    try:
-        RESERVED.parse_string(identifier)
-        return True
-    except Exception:
-        return False
+    # THE PARSING ENGINE KEEPS GLOBAL STATE (WHITESPACE STACK), SO IT MUST NOT RUN
+    # WHILE ANOTHER THREAD IS PARSING OR BUILDING A PARSER
+    from mo_sql_parsing import parse_locker
+
+    with parse_locker:
+        try:
+            RESERVED.parse_string(identifier)
+            return True
+        except Exception:
+            return False
 
 
 def _should_quote(identifier):
